@@ -3,7 +3,9 @@
 105 baseline tests, demo passes without / fails with the patch) and file it under /verif/seeded/<Cxx>-<A|B>/."""
 import json, os, re, shutil, subprocess, sys
 pid, letter = sys.argv[1], sys.argv[2]
-wt, out = '/tmp/wt/%s' % pid, '/tmp/wt/out_%s' % pid
+base_dir = sys.argv[3] if len(sys.argv) > 3 else '/tmp/wt'
+dest_letter = sys.argv[4] if len(sys.argv) > 4 else letter
+wt, out = '%s/%s' % (base_dir, pid), '%s/out_%s' % (base_dir, pid)
 patch, demo = '%s/patch_%s.diff' % (out, letter), '%s/demo_%s.py' % (out, letter)
 base = set(json.load(open('/root/.vp/BASELINE.json'))['stable_pass'])
 def sh(cmd, **kw):
@@ -17,7 +19,7 @@ rc0, t0 = demo_run()
 ok_wo = rc0 == 0 and 'FAIL' not in t0.upper().replace('FAILED 0', '')
 r = sh('git apply %s' % patch)
 assert r.returncode == 0, r.stdout
-junit = '/tmp/wt/junit_%s_%s.xml' % (pid, letter)
+junit = '%s/junit_%s_%s.xml' % (base_dir, pid, letter)
 s = sh('/venv/bin/python -m pytest -q -p no:cacheprovider --timeout=900 --continue-on-collection-errors --junitxml=%s' % junit, timeout=1800)
 import xml.etree.ElementTree as ET
 passed = set()
@@ -34,9 +36,9 @@ res = {'property': pid, 'patch': os.path.basename(patch), 'suite_baseline_tests_
 good = (not missing) and rc0 == 0 and rc1 != 0
 print(json.dumps(res, indent=1)); print('CONFIRMED' if good else 'NOT CONFIRMED')
 if good:
-    d = '/verif/seeded/%s-%s' % (pid, letter)
+    d = '/verif/seeded/%s-%s' % (pid, dest_letter)
     os.makedirs(d, exist_ok=True)
-    shutil.copy(patch, d + '/patch.diff'); shutil.copy(demo, d + '/' + os.path.basename(demo))
+    shutil.copy(patch, d + '/patch.diff'); shutil.copy(demo, d + '/demo_%s.py' % dest_letter)
     notes = open(out + '/notes.md').read() if os.path.exists(out + '/notes.md') else ''
     open(d + '/agent_notes.md', 'w').write(notes)
     meta = {'breaks_property': pid, 'written_by': 'independent sub-agent given only the property text and a scratch worktree',
